@@ -495,17 +495,20 @@ def run(ctx):
                     ctx.broken.append("correspondence: certified evaluation %s" % (
                         k if isinstance(k, str) else "Profile_%d" % k))
                     ctx.log("certified evaluation failed", vlib.tail(err, 8))
+        ctx.log("certified evaluations done (%d wallProfile rows)" % len(rows))
         ctx.sample(dict(profile_row=[str(x) for x in rows[0]]))
         profile_derivative_check(ctx, rng, ctx.n(20, 200))
+        ctx.log("profile derivative checks done")
     except Exception as ex:          # noqa: BLE001
         import traceback
         ctx.log("profile correspondence raised", traceback.format_exc())
         ctx.broken.append("harness: profile correspondence raised %r" % ex)
     # --- direct validation on the real EOM ------------------------------------------------
-    tier_M = [40, 41, 44, 48, 50, 55, 60, 70, 80, 100, 120, 140] if ctx.quick else \
-        [40, 41, 42, 43, 45, 47, 50, 53, 57, 60, 64, 70, 75, 80, 90, 100, 120, 140, 160]
+    tier_M = [40, 41, 44, 48, 50, 55, 60, 70, 80, 100, 120, 140, 160, 200] if ctx.quick else \
+        [40, 41, 42, 43, 45, 47, 50, 53, 57, 60, 64, 70, 75, 80, 90, 100, 120, 140, 160,
+         200, 240]
     worst = {}
-    ncases = ctx.n(130, 1500)
+    ncases = ctx.n(300, 3000)
     for _ in range(ncases):
         case = gen_case(rng, tier_M)
         try:
@@ -539,7 +542,7 @@ def run(ctx):
         "potentials: 1-field quartic (3 coefficients varied), 2-field quartic with portal "
         "coupling (7 coefficients varied), 2-field quartic with T-independent field part and "
         "a varying temperature profile; T=100; first width 2..12/T, other widths within a "
-        "factor 3, offsets in [-2,2]; M from 40 to 140 (160 thorough); grid tails from "
+        "factor 3, offsets in [-2,2]; M from 40 to 200 (240 thorough); grid tails from "
         "EOM._updateGrid with includeOffEq False (equal tails) and True (mfp*gamma vs "
         "mfp/gamma, vMid in {0.05,0.3,0.6,0.9}); wall shape imposed (multiplier 0) or moved "
         "by the step (multiplier 1, 0.5, 0.25 from a perturbed start on a grid re-mapped to "
